@@ -4,6 +4,7 @@ package harness
 
 import (
 	"bytes"
+	"fmt"
 	"io"
 
 	"github.com/ipfs/go-cid"
@@ -42,4 +43,22 @@ func buildSharded(st *Store, es []entrySpec, fanout int) (cid.Cid, uint64, error
 func buildDir(st *Store, es []entrySpec) (cid.Cid, uint64, error) {
 	l, sz, err := builder.BuildUnixFSDirectory(pbEntries(es), st.LinkSystem())
 	return linkCid(l), sz, err
+}
+
+// buildShardedHasher builds with an explicit multihash code for the name hash (the API allows any registered hasher).
+func buildShardedHasher(st *Store, es []entrySpec, fanout int, hasher uint64) (cid.Cid, uint64, error) {
+	l, sz, err := builder.BuildUnixFSShardedDirectory(fanout, hasher, pbEntries(es), st.LinkSystem())
+	return linkCid(l), sz, err
+}
+
+// otherBuilds runs a few builds with rarely used options (another name-hash function, other fanouts) - used as an
+// intervening history: later builds must not be affected.
+func otherBuilds(salt int) {
+	var es []entrySpec
+	for i := 0; i < 60+salt%40; i++ {
+		es = append(es, entryFor(fmt.Sprintf("other-%d-%d", salt, i), salt))
+	}
+	for _, f := range []int{8, 256} {
+		_, _, _ = buildShardedHasher(NewStore(), es, f, mh.SHA2_256)
+	}
 }
